@@ -136,7 +136,8 @@ structure St where
   snaps : Snaps := []                    -- stored snapshots the spec expects
   prevExec : List String := []           -- executing set of the previous listing
   allStarted : Bool := false             -- the last request was a process start (every executing task was just started)
-  snapsAtReq : Snaps := []               -- the stored snapshots when the last request began
+  snapsAtReq : Snaps := []               -- the stored snapshots the tasks started by the last request were restored from
+  snapsSpec : Option Snaps := none       -- what the spec expects when an interrupted request's prefix leaves something else
   reqsSinceList : Nat := 0               -- requests since the previous listing
 
 def St.mm (st : St) (d : String) : St := if st.mismatch.isSome then st else { st with mismatch := some d }
@@ -215,10 +216,16 @@ def judge (_id : String) (lines : Array String) : Verdict := Id.run do
       let sn := parseSnaps (look m "snaps")
       if specfail.isNone then
         let stored := (sn.filter (fun x => x.2.1 != "-")).map (fun x => (x.1, x.2.1))
-        let expected := st.ids.filterMap (fun i => (st.snaps.get i).map (fun p => (i, p)))
-        if stored != expected then
+        -- `st.snaps` = what the transaction prefix of the (possibly interrupted) request leaves; `snapsSpec` = what the
+        -- spec expects of the request as answered, when that differs (a failed snapshots.Delete): the observation must be
+        -- the spec's, or EXACTLY the prefix's (recorded deviation crash-between-transactions); anything else fails
+        let expOf := fun (sp : Snaps) => st.ids.filterMap (fun i => (sp.get i).map (fun p => (i, p)))
+        let expected := expOf (st.snapsSpec.getD st.snaps)
+        if stored != expected && !(st.snapsSpec.isSome && stored == expOf st.snaps) then
           specfail := some ("snapshot-survives", s!"expected {expected} stored {stored}")
         else
+          if stored != expected then st := st.kn "crash-between-transactions" "snapshot state left by the transaction prefix of an interrupted delete"
+          else st := { st with snaps := st.snapsSpec.getD st.snaps }
           -- exactly one request since the previous listing: a task that executes now and did not before (or any task
           -- after a process start) was started by that request, from the snapshot stored when the request began
           for i in exec do
@@ -226,7 +233,7 @@ def judge (_id : String) (lines : Array String) : Verdict := Id.run do
               let restored := match sn.find? (fun x => x.1 == i) with | some x => x.2.2 | none => "-"
               if restored != (st.snapsAtReq.get i).getD "-" && specfail.isNone then
                 specfail := some ("snapshot-restored-at-start", s!"task {i} restored with {restored}, stored {(st.snapsAtReq.get i).getD "-"}")
-      st := { st with pend := none, before := rowsFn rows, prevExec := exec, allStarted := false, reqsSinceList := 0 }
+      st := { st with pend := none, before := rowsFn rows, prevExec := exec, allStarted := false, reqsSinceList := 0, snapsSpec := none }
       -- the stored Type is the type of the stored script (model header: derived, not stored)
       if !typesOk env (rowTypes (look m "tasks") 1 5) then st := st.mm s!"task type differs from the type of its script: {look m "tasks"}"
       if !typesOk env (rowTypes (look m "tmpls") 1 2) then st := st.mm s!"template type differs from the type of its script: {look m "tmpls"}"
@@ -332,8 +339,20 @@ def judge (_id : String) (lines : Array String) : Verdict := Id.run do
       st := { st with pend := some p }
       -- snapshots: the request completed unless its FIRST transaction (deleteTask: snapshots.Delete) failed / the
       -- process came back from the file as it was before the request
-      st := { st with snapsAtReq := st.snaps, reqsSinceList := st.reqsSinceList + 1 }
-      if !(fault == some 1 || cut == some 0) then st := { st with snaps := snapStep st.snaps op }
+      -- snapshots, crash/fault aware: the FIRST transaction of deleteTask is snapshots.Delete (Spec.snapPrefix). A crash
+      -- before it = the request never happened; a fault in it = the snapshot is left behind although the delete is
+      -- answered as done. After a crash the process restarts on the file: tasks are restored from what the prefix left.
+      let firstTx := !(cut == some 0) && !(fault == some 1 && cut.isNone && faultable op)
+      let pre := snapPrefix st.snaps op firstTx
+      -- what the spec expects: the request as answered — or, after a crash that came before its last transaction
+      -- and left the catalogue file as it was, no effect at all (so "task still stored, snapshot gone" is neither)
+      let specExp := match cut with
+        | none => snapStep st.snaps op
+        | some k =>
+          if k < ntxObs.getD 0 && storeEq ids mids (crashFile (handle Variant.fixed env fail (beginReq wBefore cut) op).1) wBefore.store
+          then st.snaps else snapStep st.snaps op
+      st := { st with snapsAtReq := if cut.isSome then pre else st.snaps, reqsSinceList := st.reqsSinceList + 1,
+                      snapsSpec := if specExp != pre then some specExp else none, snaps := pre }
       if op == .restart || cut.isSome then st := { st with allStarted := true }
       if op == .restart then st := { st with restarts := st.restarts + 1 }
       else if resp = .ok then st := { st with accepted := st.accepted + 1 }
